@@ -74,6 +74,12 @@ func (c c10Case) planString() string {
 	return strings.Join(s, ",")
 }
 
+// modelPlan is the plan in the oracle's vocabulary: a timeout-flavoured read failure is a fatal read
+// failure (only os.ErrDeadlineExceeded means "no packet yet").
+func (c c10Case) modelPlan() string {
+	return strings.ReplaceAll(c.planString(), ":fatal-timeout", ":fatal")
+}
+
 func (c c10Case) key() string {
 	return fmt.Sprintf("%s|%s|%v|%v|%v|%d|%d|%d|%d", c.Variant, c.planString(), c.MCP, c.Invalid, c.NotListening, c.MaxTTL, c.DestTTL, c.SilentHop, c.CancelAtMs)
 }
@@ -540,7 +546,7 @@ func c10ModelLine(c c10Case, o c10Obs) string {
 	if c10Cancelled(c, o) {
 		valid = "c" // valid target, and the caller's context is done before the engine returns
 	}
-	cfg := fmt.Sprintf("1 %d %s %s %s", c.MaxTTL, valid, b2s(c.MCP), c.planString())
+	cfg := fmt.Sprintf("1 %d %s %s %s", c.MaxTTL, valid, b2s(c.MCP), c.modelPlan())
 	// positions in the log
 	readIdx, doneIdx := 0, 0
 	phase := "pre" // pre | hs | eng
@@ -652,6 +658,7 @@ func c10SpecLine(c c10Case, o c10Obs) string {
 	if len(hits) > 0 {
 		h = strings.Join(hits, ",")
 	}
+	h = strings.ReplaceAll(h, ":fatal-timeout", ":fatal")
 	return strings.TrimRight("wrap.spec "+res+" "+h+" "+strings.Join(c10WireLog(o), " "), " ")
 }
 
@@ -729,6 +736,12 @@ func TestC10(t *testing.T) {
 						runCase(c)
 					}
 				}
+			}
+			// a read that FAILS with an error value answering Timeout() == true (not the deadline sentinel)
+			for k := 0; k <= free.Counts["read"]+1; k++ {
+				c := base
+				c.Faults = []wireFault{{Op: "read", K: k, Class: "fatal-timeout"}}
+				runCase(c)
 			}
 			c := base
 			c.Faults = []wireFault{{Op: "nss", K: 0, Class: "fatal"}}
